@@ -114,6 +114,10 @@ func assignForms() []Form {
 
 func dataForms() []Form {
 	return []Form{
+		// (round 9) conversions to []byte of byte slices, element op-assignment with an expression index
+		{ID: "bytes_of_named_slice_core", Decls: "type NBlkC []byte\n", Code: "bq := make([]byte, 2)\nnb := NBlkC(bq)\nraw := []byte(nb)\nraw[0] = 9\nr = uint64(nb[0]) + uint64(len(raw))"},
+		f("bytes_of_byte_slice_core", "bq := make([]byte, 2)\nraw := []byte(bq)\nraw[1] = 7\nr = uint64(bq[1])"),
+		f("opassign_elem_idx_core", "idx := uint64(4)\nxs[x%2+1] += idx\nr = xs[x%2+1] + idx"),
 		// a[i:len(b)]: the upper bound names another slice (or the same one, which may be emitted as a skip)
 		f("slice_to_len_other_field", "sa := &SW{items: mkXs(5)}\nsb := &SW{items: mkXs(3)}\nys := sa.items[1:len(sb.items)]\nr = uint64(len(ys))"),
 		f("slice_to_len_other_var", "ya := mkXs(5)\nyb := mkXs(3)\nys := ya[1:len(yb)]\nr = uint64(len(ys))"),
